@@ -97,11 +97,11 @@ func dependsOn(v ssa.Value, pred func(ssa.Value) bool, depth int, seen map[ssa.V
 
 func c13CarryChain(c *Ctx) {
 	type spec struct {
-		fn    string
-		prim  string // the primitive whose carry operand is examined
-		arg   int    // which operand is the carry-in
-		out   int    // which result is the carry-out
-		what  string
+		fn   string
+		prim string // the primitive whose carry operand is examined
+		arg  int    // which operand is the carry-in
+		out  int    // which result is the carry-out
+		what string
 	}
 	n := 0
 	for _, sp := range []spec{
